@@ -448,7 +448,11 @@ class Merge(Expr):
             predicate_cols = self._predicate_columns(parent.predicate)
             new_left, new_right = self.left, self.right
             left_suffix, right_suffix = self.suffixes[0], self.suffixes[1]
-            if predicate_cols and predicate_cols.issubset(self.left.columns):
+            if (
+                predicate_cols
+                and predicate_cols.issubset(self.left.columns)
+                and self.how in ("left", "inner", "leftsemi")
+            ):
                 if left_suffix != "" and any(
                     f"{col}{left_suffix}" in self.columns and col in self.right.columns
                     for col in predicate_cols
@@ -458,7 +462,11 @@ class Merge(Expr):
                 else:
                     left_filter = predicate.substitute(self, self.left)
                     new_left = self.left[left_filter]
-            if predicate_cols and predicate_cols.issubset(self.right.columns):
+            if (
+                predicate_cols
+                and predicate_cols.issubset(self.right.columns)
+                and self.how in ("right", "inner")
+            ):
                 if right_suffix != "" and any(
                     f"{col}{right_suffix}" in self.columns and col in self.left.columns
                     for col in predicate_cols
